@@ -1325,6 +1325,10 @@ def setitem(it, obj, idx, value, node, fr):
                     setattr(new, a, getattr(obj, a))
             if getattr(value, "axes", None) is not None and getattr(new, "axes", None) is None:
                 new.axes = value.axes
+            if getattr(new, "axes", None) is None and getattr(idx, "axes", None) is not None and getattr(obj, "alloc", None) in ("zeros", "ones", "full") \
+                    and tm.is_const(obj.term) and new.term.op == "ite":
+                # a constant array (np.zeros(shape)) filled where a mask over an index grid holds: an index function over the mask's grid
+                new.axes = idx.axes
             fr.env[name] = new
         return
     if isinstance(obj, Obj):
